@@ -180,6 +180,44 @@ def run(ctx):
                     continue
                 checks.append(('%s:%s' % (vname, tm), lib_verify(tt), expect, raw_of(tt) if po2 else None, po2, dict(info, tampered_input=i)))
 
+    # --- keys attached to the inputs: sign() without arguments, a change to the signed transaction, then sign_and_update() -----------
+    import hashlib
+    for trial in range(30 if T else 8):
+        t, d = txgen.build_api_tx(rng, nin=rng.randint(1, 3), max_n=3, public_only=False)
+        po = prevouts(d)
+        info = {'kinds': [m['kind'] for m in d['meta']], 'm_of_n': [(m['m'], len(m['keys'])) for m in d['meta']], 'schedule': 'attached keys'}
+        try:
+            t.sign()
+        except Exception as e:
+            ctx.violation('sign() with the keys attached to the inputs raised', {'op': 'sign-attached', 'error': repr(e)[:120], **info})
+            continue
+        checks.append(('signed', lib_verify(t), 'valid', raw_of(t), po, info))
+        what = rng.choice(['out_value', 'locktime', 'sequence', 'version'])
+        try:
+            if what == 'out_value':
+                t.outputs[rng.randrange(len(t.outputs))].value += 1
+            elif what == 'locktime':
+                t.locktime ^= 1
+            elif what == 'sequence':
+                t.inputs[rng.randrange(len(t.inputs))].sequence ^= 1
+            else:
+                t.version_int ^= 3
+                t.version = t.version_int.to_bytes(4, 'big')
+            checks.append(('changed-after-signing:' + what, lib_verify(t), 'invalid', raw_of(t), po, dict(info, tampered_input=None)))
+            t.sign_and_update()
+        except Exception as e:
+            ctx.violation('sign_and_update() after a change raised', {'op': 'resign', 'error': repr(e)[:120], 'changed': what, **info})
+            continue
+        raw = raw_of(t)
+        checks.append(('signed', lib_verify(t), 'valid', raw, po, dict(info, resigned_after=what)))
+        if raw is not None:
+            stripped = txgen.strip_witness(raw) if hasattr(txgen, 'strip_witness') else None
+            t3 = Transaction.parse_bytes(raw, strict=False)
+            ctx.evals += 1
+            if t.txid != t3.txid or (stripped is not None and t.txid != hashlib.sha256(hashlib.sha256(stripped).digest()).digest()[::-1].hex()):
+                ctx.violation('after sign_and_update() the reported id is not the id of the serialised transaction',
+                              {'op': 'resign-txid', 'reported': t.txid, 'parsed_back': t3.txid, 'raw': raw.hex(), **info})
+
     # --- independent verdicts ------------------------------------------------------------------------------------
     idx = [k for k, c in enumerate(checks) if c[3] is not None and c[4] is not None]
     verdicts = lean_verdict([(checks[k][3], checks[k][4]) for k in idx])
